@@ -319,6 +319,28 @@ MUTANTS = [
      "        contain, contained, intersect = utils.disk_interactions(\n            octr, orad, sctr, srad, broadcast=broadcast\n        )\n\n        res = np.full(contain.shape, True)"),
 ]
 
+# independently seeded changes (sub-agents; /verif/seeded/<id>/patch.diff):
+# (seed id, property, rule that must fire) -- applied with `patch -p1`
+SEEDED = [
+    ("C01-1", "C01", "H2"), ("C01-2", "C01", "C2"),
+    ("C03-1", "C03", "C2"), ("C03-2", "C03", "W1"),
+    ("C04-1", "C04", "SH2"), ("C04-2", "C04", "AX1"),
+    ("C05-1", "C05", "ZS1"), ("C05-2", "C05", "C2"),
+    ("C06-1", "C06", "M4"), ("C06-2", "C06", "N1"),
+    ("C08-1", "C08", "P1q"), ("C08-2", "C08", "N1"),
+    ("C09-1", "C09", "RF1"), ("C09-2", "C09", "V1p"),
+    ("C10-1", "C10", "RF1"), ("C10-2", "C10", "N1"),
+    ("C11-1", "C11", "S2"), ("C11-2", "C11", "S1"),
+    ("C12-1", "C12", "T2"), ("C12-2", "C12", "H1"),
+    ("C13-1", "C13", "ODD1"), ("C13-2", "C13", "G2"),
+    ("C14-2", "C14", "X1"),
+    ("C16-1", "C16", "BM1"), ("C16-2", "C16", "R1c"),
+    ("C19-2", "C19", "DR4"),
+    ("C20-1", "C20", "K2"),
+]
+# seeded changes no static rule here decides (numerical / heuristic):
+# C14-1, C15-1, C15-2, C19-1, C20-2 -- see DESIGN.md section 6.2
+
 # behaviour-preserving edits: every listed property must stay silent (exit 0)
 NEUTRAL = [
     ("n-clip", ["C01"], H,
@@ -384,6 +406,42 @@ NEUTRAL = [
     ("n-rename-local", ["C03", "C11", "C04"], P,
      "        new_obj = copy(proj_obj)\n",
      "        new_obj = copy(proj_obj)\n        # operate on the copy only\n"),
+    ("n-none-ternary", ["C10", "C09", "C06"], F,
+     "        if start_vertex is None:\n            start_vertex = self.start_vertices[0]\n        vertex = start_vertex\n",
+     "        start_vertex = (self.start_vertices[0] if start_vertex is None\n                        else start_vertex)\n        vertex = start_vertex\n"),
+    ("n-worklist-both", ["C10", "C09"], F,
+     "        still_pruning = True\n        while still_pruning:\n            still_pruning = False\n            vertices = list(to_modify._out_dict.keys())\n            for v in vertices:\n                if (len(to_modify._out_dict[v]) == 0 or\n                    len(to_modify._in_dict[v]) == 0):\n                    to_modify.delete_vertex(v)\n                    still_pruning = True\n",
+     "        to_check = deque(to_modify._out_dict.keys())\n        while len(to_check) > 0:\n            v = to_check.popleft()\n            if v not in to_modify._out_dict:\n                continue\n            if (len(to_modify._out_dict[v]) == 0 or\n                len(to_modify._in_dict[v]) == 0):\n                affected = (list(to_modify.neighbors_out(v)) +\n                            list(to_modify.neighbors_in(v)))\n                to_modify.delete_vertex(v)\n                to_check.extend(affected)\n"),
+    ("n-memo-reset-in-set", ["C01", "C03", "C11"], P,
+     "        self.proj_data = proj_data\n\n        if self.aux_ndims > 0:",
+     "        self.proj_data = proj_data\n        self._memo = None\n\n        if self.aux_ndims > 0:"),
+    ("n-listcopy-instead-of-deepcopy", ["C09"], F,
+     "            key: defaultdict(list, copy.deepcopy(value))",
+     "            key: defaultdict(list, {w: list(ls) for w, ls in value.items()})"),
+    ("n-flip-positional-axis", ["C04", "C14"], C,
+     "    shifted_thetas[to_flip] = np.flip(shifted_thetas[to_flip], axis=-1)",
+     "    shifted_thetas[to_flip] = np.flip(shifted_thetas[to_flip], -1)"),
+    ("n-projection-named-coeff", ["C04"], C,
+     "    return (v2.T *\n            apply_bilinear(v1, v2, bilinear_form).T /\n            normsq(v2, bilinear_form).T).T",
+     "    coeff = apply_bilinear(v1, v2, bilinear_form) / normsq(v2, bilinear_form)\n\n    return (v2.T * coeff.T).T"),
+    ("n-two-sided-clip", ["C13"], H,
+     "        return np.arccos(product)",
+     "        return np.arccos(np.clip(product, -1, 1))"),
+    ("n-tanh", ["C13"], H,
+     "    return (np.exp(2 * r) - 1) / (1 + np.exp(2 * r))",
+     "    return np.tanh(r)"),
+    ("n-stable-tanh", ["C13"], H,
+     "    return (np.exp(2 * r) - 1) / (1 + np.exp(2 * r))",
+     "    decay = np.exp(-2 * np.abs(r))\n    return np.sign(r) * (1 - decay) / (1 + decay)"),
+    ("n-square-instead-of-abs", ["C01", "C12"], H,
+     "        return np.arccosh(np.maximum(np.abs(products), 1))",
+     "        return np.arccosh(np.maximum(np.sqrt(products**2), 1))"),
+    ("n-zmod-explicit-add", ["C05"], G + "utils/words.py",
+     "        z_sum[word] += z2[word]",
+     "        z_sum[word] = z_sum[word] + z2[word]"),
+    ("n-intersect-refactor", ["C16"], P,
+     "        if broadcast == \"elementwise\":\n            p1, p2 = self.proj_data, other_obj.proj_data\n        elif broadcast == \"pairwise\":\n            p1, p2 = utils.broadcast_match(self.proj_data,\n                                          other_obj.proj_data, 2)\n        else:\n            raise ValueError(f\"Unrecognized broadcast rule: '{broadcast}'\")\n",
+     "        if broadcast not in (\"elementwise\", \"pairwise\"):\n            raise ValueError(f\"Unrecognized broadcast rule: '{broadcast}'\")\n        p1, p2 = self.proj_data, other_obj.proj_data\n        if broadcast == \"pairwise\":\n            p1, p2 = utils.broadcast_match(p1, p2, 2)\n"),
     ("n-aligned-sign", ["C12"], H,
      "        aligned = other.proj_data * np.expand_dims(-np.sign(products), axis=-1)",
      "        aligned = -np.sign(products)[..., np.newaxis] * other.proj_data"),
@@ -407,6 +465,15 @@ def _apply(root, rel, old, new):
     return None
 
 
+def _apply_patch(root, patchfile):
+    import subprocess
+    p = subprocess.run(["patch", "-p1", "-s", "-d", root, "-i", patchfile],
+                       capture_output=True, text=True)
+    if p.returncode != 0:
+        return "patch does not apply: " + (p.stdout + p.stderr)[:200]
+    return None
+
+
 def _run_variant(job):
     kind, vid, pids, rule, rel, old, new, src = job
     os.environ["SA_NO_EVIDENCE"] = "1"
@@ -418,7 +485,11 @@ def _run_variant(job):
                         os.path.join(tmp, "geometry_tools"),
                         ignore=shutil.ignore_patterns("__pycache__", "builtin",
                                                       "*.wa", "*.md"))
-        err = _apply(tmp, rel, old, new)
+        if kind == "seeded":
+            err = _apply_patch(tmp, rel)
+            kind = "mutant"
+        else:
+            err = _apply(tmp, rel, old, new)
         if err:
             return (kind, vid, "stale", err)
         out = []
@@ -443,6 +514,13 @@ def run(pids=None, jobs=16, root=None, quiet=False):
         sel = [p for p in ps if want is None or p in want]
         if sel:
             todo.append(("mutant", vid, sel, rule, rel, old, new, src))
+    seeded_dir = os.path.join(os.path.dirname(os.path.dirname(
+        os.path.abspath(__file__))), "seeded")
+    for sid, pid, rule in SEEDED:
+        if want is None or pid in want:
+            todo.append(("seeded", "seeded-" + sid, [pid], rule,
+                         os.path.join(seeded_dir, sid, "patch.diff"),
+                         None, None, src))
     for vid, ps, rel, old, new in NEUTRAL:
         sel = [p for p in ps if want is None or p in want]
         if sel:
